@@ -108,6 +108,12 @@ class C07World(SrcWorld):
             evs.append(("ackeof",))
         if step == "WAITING_FOR_FINISHED":
             evs.append(self.alphabet[2])
+            if self.cfg.get("odd_fin"):
+                # the peer's Finished PDU carries the ids of the transaction in wider fields / another CRC flag than the sender's
+                # configuration: the ACK (Finished) the sender answers with must still follow the sender's own configuration
+                c = self.c
+                evs.append(("pdu", "FIN", None, (("crc", not c["crc_flag"]),)))
+                evs.append(("pdu", "FIN", None, (("dst", (c["idv_d"], 8)), ("src", (c["idv_s"], 8)))))
         return evs
 
     def update_model(self, st, ev, out):
@@ -372,6 +378,9 @@ def configs(tier):
     # entity ids and sequence numbers at the top of their width
     for ws, wd, sw, mode in itertools.product((1, 2, 4, 8), (1, 2, 4, 8), (1, 2, 4), ("unack", "ack")):
         add(idw_s=ws, idw_d=wd, seqw=sw, idv_s=(1 << (8 * ws)) - 1, idv_d=(1 << (8 * wd)) - 2, seq0=(1 << (8 * sw)) - 1, mode=mode, size=5, seg=2, closure=True, mpl=64)
+    # Finished PDUs whose header differs from the sender's configuration (same ids)
+    for crc, ws, mpl in itertools.product((False, True), (1, 2), (64, 24)):
+        add(mode="ack", closure=False, size=3, seg=2, crc_flag=crc, idw_s=ws, idw_d=ws, seqw=2, mpl=mpl, odd_fin=True)
     # closure, metadata only
     for mode, closure, md in itertools.product(("unack", "ack"), (False, True), (False, True)):
         add(mode=mode, closure=closure, md_only=md, size=0 if md else 3, seg=2)
